@@ -1296,8 +1296,9 @@ def directed(rng, sch, budget):
     # D. variables in every kind of position
     def tvariants(t):
         base = nullable(t)
-        return [base, NN(base), L(base), NN(L(base)), L(NN(base)), N("String") if named(t) != "String" else N("Int")] + \
-               ([base[1], NN(base[1])] if base[0] == "l" else [])
+        nn = lambda x: x if is_nn(x) else NN(x)
+        return [base, nn(base), L(base), NN(L(base)), L(nn(base)), N("String") if named(t) != "String" else N("Int")] + \
+               ([base[1], nn(base[1])] if base[0] == "l" else [])
     positions = [("scalars", "i", N("Int"), None), ("scalars", "li", L(N("Int")), None),
                  ("scalars", "lli", L(L(N("Int"))), None), ("scalars", "lnn", L(NN(N("Int"))), None),
                  ("scalars", "nnl", NN(L(N("Int"))), ("list", [])), ("need", "n", NN(N("Int")), None),
